@@ -640,7 +640,7 @@ def _confirm(task):
 def main(tier):
     rep = Report("C15", tier, "model_checking")
     quick = tier == "quick"
-    deadline = time.time() + (420 if quick else 5400)
+    deadline = time.time() + (900 if quick else 5400)      # (a deadline only matters on a slow or loaded machine: the idle run needs about 150 s)
     ex = Explorer(C15(), variant="ossl-plain")
     found = {}
     complete = True
